@@ -29,7 +29,8 @@ def gen_treeinfo(rng, R=None):
                     "short": rng.choice(["Fedora", "RHEL", "Fedora", "RHEL", "", "F 2"]),
                     "version": rng.choice(["22", "7.9", "Rawhide", "6.5"]), "is_layered": layered},
         "base_product": {"name": "Base", "short": rng.choice(["B", "B", ""]), "version": rng.choice(["7", "Rawhide"])} if layered else None,
-        "tree": {"arch": arch, "build_timestamp": rng.choice([1440000000, 1, rng.randint(10 ** 8, 2 * 10 ** 9), -1]),
+        "tree": {"arch": arch, "build_timestamp": rng.choice([1440000000, 1, rng.randint(10 ** 8, 2 * 10 ** 9), -1,
+                                                         2 ** 53 + 1, 1700000000123456789, -(2 ** 60 + 7)]),   # time.time_ns() is an integer too
                  "platforms": sorted(set(rng.sample([arch, "xen", "ppc64"], rng.randint(0, 3))))},
         "variants": {}, "images": {}, "stage2": {"mainimage": None, "instimage": None},
         "media": {"discnum": None, "totaldiscs": None}, "checksums": {},
